@@ -173,6 +173,13 @@ func c09WriterCases(c *ev.Ctx) []wcase {
 		out = append(out, wcase{ID: fmt.Sprintf("lzma2-%d", i), Kind: "lzma2", Data: data, Parts: parts, Flush: fl,
 			L2: lzma.Writer2Config{DictCap: r.Pick(4096, 65536), Matcher: lzma.MatchAlgorithm(i % 2)}, Feat: "lzma2 with flushes"})
 	}
+	// a chunk that reaches the 2 MiB uncompressed limit, followed by more writes: a failure
+	// while that chunk is flushed must not make the next Write panic
+	big := make([]byte, 1<<21)
+	big = append(big, gen.Data(r, "text", 3000)...)
+	out = append(out, wcase{ID: "lzma2big", Kind: "lzma2", Data: big, Parts: []int{1 << 20, 1 << 20, 1000, 2000}, Flush: map[int]bool{2: true},
+		L2: lzma.Writer2Config{DictCap: 65536}, Feat: "lzma2, chunk at the 2 MiB limit"})
+	out = append(out, wcase{ID: "xzbig2m", Kind: "xz", Data: big, Parts: []int{1<<21 - 5, 5, 3000}, XZ: xz.WriterConfig{DictCap: 65536}, Feat: "xz, chunk at the 2 MiB limit"})
 	return out
 }
 
